@@ -68,7 +68,15 @@ pub fn gen_cases(prop: &str, seed: u64, n: u64, out: &str) {
                 }
             }
         }
-        // positive TTLs mostly (TTL 0 replies are not cached; both are fine here)
+        // a reply with any TTL of 0 is not cached at all; with many random records that is nearly every reply, so in
+        // half of the cases every TTL is lifted to at least 30 s and the cache takes part in what follows
+        if r.bool() {
+            for rr in up.answer.iter_mut().chain(up.authority.iter_mut()).chain(up.additional.iter_mut()) {
+                if rr.ttl < 30 {
+                    rr.ttl = 30 + (rr.ttl % 7) * 100;
+                }
+            }
+        }
         let mode = match r.below(3) {
             0 => rn::Compress::None,
             1 => rn::Compress::Full,
@@ -187,10 +195,9 @@ pub fn judge(prop: &str, cases_path: &str, events_path: &str) -> Leg {
                 continue;
             }
             let is_prefix = got.len() <= want.len() && got.iter().zip(want.iter()).all(|(a, b)| {
+                // TTLs are C03's and C06's subject (a cached reply is legitimately aged); here only which records were kept
                 let mut a2 = a.clone();
-                if a2.ttl <= b.ttl && b.ttl - a2.ttl <= 3 {
-                    a2.ttl = b.ttl;
-                }
+                a2.ttl = b.ttl;
                 a2 == *b
             });
             if !is_prefix {
